@@ -17,7 +17,7 @@ RULE = (
     "fill_value None/scalar/total/partial mapping) x one xgcm.padding.pad call with per-call spellings and asymmetric "
     "widths 0..n per axis (axes optionally omitted), extra dims, shuffled dim order; data float64 (a fifth with NaN / +-inf cells), int64 or uint64 (integer fills up to 2**63). Oracle: resolution model + "
     "hand-written wrap/constant/edge extension; interior and single-axis halo cells strict, corner cells must equal one "
-    "of the sequential orders; in a third of the cases the same option objects are then used on a second grid with other settings (judged by that grid's rules); scalar vs total-mapping spellings (call and constructor) must agree bit-for-bit. Class = "
+    "of the sequential orders; a later pad on the same Grid with other per-call options (often none) is judged by the rules in force for that call; in a third of the cases the same option objects are then used on a second grid with other settings (judged by that grid's rules); scalar vs total-mapping spellings (call and constructor) must agree bit-for-bit. Class = "
     "per-axis (rule, source of rule, lower>0, upper>0, width>=n), #axes; non-trivial iff some width > 0."
 )
 REQUIRED_REACH = [
@@ -79,6 +79,8 @@ def gen_case(rng, i, tier):
         "data": {"kind": "unique" if rng.random() < 0.5 else "quarter", "seed": rng.getrandbits(31), "dtype2": dtype,
                  "holes": dtype == "float64" and rng.random() < 0.2},
         "call": call, "name": "v",
+        # a later call on the same Grid with other per-call options (often none at all): every call is resolved afresh
+        "later": {"boundary": gen.random_spelling(rng, axn, gen.RULES, p_none=0.6), "fill_value": gen.random_spelling(rng, axn, [0, 7, 2, -3], p_none=0.6)},
     }
 
 
@@ -213,6 +215,25 @@ def run_case(ctx, desc):
         ctx.judged(("corner",) + tuple(map(tuple, ckey)), True)
         if not ok:
             ctx.violation("pad-corner", f"corner cells match no sequential order; rules {rules} widths {bw}")
+            return
+    # a later call on the same Grid with other per-call options: the rule in force is resolved for every call from that
+    # call's arguments and the Grid-level settings, whatever earlier calls were given
+    if desc.get("later") is not None:
+        later = {k: v for k, v in desc["later"].items() if v is not None}
+        if dt != "float64":
+            later.pop("fill_value", None)
+        dL = dict(desc, call=dict({"boundary_width": call["boundary_width"]}, **later))
+        ctx.judged(("later-call", tuple(sorted(later)), bool(kw)) + tuple(map(tuple, ckey)), nontrivial)
+        try:
+            rL = pad(da, g, dict(bw), **copy.deepcopy(later))
+            expL = model(dL, da.values, da.dims, order)
+            gotL = rL.transpose(*da.dims).values
+            if gotL.shape != expL.shape or not same(gotL[~corner], expL[~corner]):
+                ctx.violation("pad-halo", f"a later pad with per-call options {later} on the same Grid (constructed with {desc['ctor']}, first padded with {kw}): "
+                                          f"halo differs from the rules in force for that call", mechanism=classify(dL, gotL, da, order, corner))
+                return
+        except Exception as e:
+            ctx.violation("pad-returns", f"a later pad with per-call options {later} on the same Grid raised {type(e).__name__}: {str(e)[:200]}")
             return
     # the very same option objects on a second grid whose own settings differ: what the per-call options leave open comes
     # from the grid of *this* call
